@@ -219,6 +219,23 @@ theorem and_one_shl_beq (x : BitVec 64) (k : Nat) (hk : k < 64) :
     · subst h2; simp [hx, hj]
     · simp [h2]
 
+/-- the other Go idiom for the same test, `x & mask != 0` -/
+theorem and_one_shl_bne (x : BitVec 64) (k : Nat) (hk : k < 64) :
+    ((x &&& ((1#64) <<< k)) != 0#64) = x.getLsbD k := by
+  cases hx : x.getLsbD k
+  · have : (x &&& ((1#64) <<< k)) = 0#64 := by
+      apply BitVec.eq_of_getLsbD_eq
+      intro j hj
+      rw [BitVec.getLsbD_and, getLsbD_one_shl]
+      by_cases h2 : j = k
+      · subst h2; simp [hx]
+      · simp [h2]
+    simp [this]
+  · apply bne_iff_ne.mpr
+    intro h
+    have := congrArg (fun v => v.getLsbD k) h
+    simp only [BitVec.getLsbD_and, getLsbD_one_shl, hx, hk] at this
+    simp at this
 
 /-! ## popcount -/
 
@@ -247,7 +264,9 @@ theorem clear_inRange (b : M256) (bit : BitVec 8) : M256.Clear_inRange b bit := 
 theorem get_eq (b : M256) (bit : BitVec 8) : M256.Get b bit = (abs b).get bit.toNat := by
   have hoff : bit.toNat % 64 < 64 := Nat.mod_lt _ (by decide)
   simp only [M256.Get, abs, Mask.get, BitVec.shiftLeft_eq', off_toNat]
-  rw [and_one_shl_beq _ _ hoff, getLsbD_abs_get b.bits bit.toNat bit.isLt (bit >>> 6) (idx_toNat bit)]
+  first
+    | rw [and_one_shl_beq _ _ hoff, getLsbD_abs_get b.bits bit.toNat bit.isLt (bit >>> 6) (idx_toNat bit)]
+    | rw [and_one_shl_bne _ _ hoff, getLsbD_abs_get b.bits bit.toNat bit.isLt (bit >>> 6) (idx_toNat bit)]
 
 theorem set_eq (b : M256) (bit : BitVec 8) : abs (M256.Set b bit) = (abs b).set bit.toNat := by
   have hlt : bit.toNat < 256 := bit.isLt
